@@ -494,7 +494,9 @@ def _check_emitters(ctx, res: RuleResult):
     for fi in writers:
         fn = fi.node
         label_vars = {}      # name -> 'edge' (pair of labels) | 'label'
-        for n in own_walk(fn):
+        walk2 = list(own_walk(fn)) + list(own_walk(fn))
+        seen_filters = set()
+        for n in walk2:
             gens = []
             if isinstance(n, ast.For):
                 gens = [(n.target, n.iter, n)]
@@ -503,6 +505,17 @@ def _check_emitters(ctx, res: RuleResult):
             for tg, it, owner in gens:
                 src = _iter_source(fi, it)
                 if src is None:
+                    # items of a local dict that was filled with node labels as keys
+                    base = it
+                    while isinstance(base, ast.Call) and isinstance(base.func, ast.Name) and base.func.id in ("sorted", "list", "tuple") and base.args:
+                        base = base.args[0]
+                    if isinstance(base, ast.Call) and isinstance(base.func, ast.Attribute) and base.func.attr == "items" and isinstance(base.func.value, ast.Name):
+                        dname = base.func.value.id
+                        keyed = any(isinstance(x, ast.Assign) and isinstance(x.targets[0], ast.Subscript) and isinstance(x.targets[0].value, ast.Name)
+                                    and x.targets[0].value.id == dname and isinstance(x.targets[0].slice, ast.Name) and label_vars.get(x.targets[0].slice.id) == "label"
+                                    for x in own_walk(fn))
+                        if keyed and isinstance(tg, ast.Tuple) and isinstance(tg.elts[0], ast.Name):
+                            label_vars[tg.elts[0].id] = "label"
                     continue
                 kind = src
                 if kind == "edges":
@@ -528,6 +541,9 @@ def _check_emitters(ctx, res: RuleResult):
                         if g.iter is it:
                             filt += g.ifs
                 for f in filt:
+                    if id(f) in seen_filters:
+                        continue
+                    seen_filters.add(id(f))
                     okf = _accepted_filter(fi, f, owner)
                     res.inst(fi.fq, f"iteration over {kind}: filter `{short(f)}`", "ok" if okf else "fail")
                     if not okf:
@@ -550,6 +566,7 @@ def _check_emitters(ctx, res: RuleResult):
                     if not ok:
                         res.fail(Finding("R-CODEC", fi.module.rel, fi.qualname, norm(e), f"emitted index is label{k:+d}; the parser subtracts 1", line=e.lineno))
     if n_emit < 3:
+        # second pass: a dict keyed by labels may be filled before the loop that formats it is reached in walk order
         raise AnalysisError(f"R-CODEC: found only {n_emit} emitted node indices in the serializer's writers (expected two bond endpoints and the attribute index)")
     res.counts["emitted_index_sites"] = n_emit
 
